@@ -11,8 +11,8 @@ the C entries raw_name_from_str / set_name go through.
                      byte can never be mistaken for a compression pointer), and the terminator pushed is 0
   C14.c total size   on every Ok exit the output buffer holds at most 253 bytes; every Err exit is reached through one of the
                      three documented refusals
-  C14.d read-back    in TypedIterable::name and ParsedPacket::question every name decoded by raw_name_to_str is folded with the standard
-                     ASCII lower-casing on every path to the return
+  C14.d read-back    in TypedIterable::name and ParsedPacket::question, for every decoded name: (per-byte map of raw_name_to_str, evaluated
+                     for all 256 byte values by E3) followed by (the standard ASCII fold if applied on every path) = ASCII lower-casing
 
 Not decided: that the emitted labels are exactly the dot-separated labels of the input (needs the loop invariant
 label_len = i - label_start), the read-back through raw_name_to_str, and the exact set of accepted names.
@@ -50,11 +50,111 @@ def lemma_label_start(facts, f):
     return ok, srcs
 
 
+def decoder_byte_map(facts):
+    """E3 on the per-byte part of Compress::raw_name_to_str: for a symbolic label byte c, what is appended to the result.
+    Returns (table, why): table[c] = output byte (int), 'ESC' for the dot escape, or None when the byte's treatment could not be decided."""
+    from analysis.bits import BV, BF, Interp, EnumV, CellRef, Undecided, TOP, bf_table
+    key = 'compress::Compress::raw_name_to_str'
+    f = facts.fn(key)
+    if f is None:
+        return None, 'raw_name_to_str not found'
+    head = some = None
+    for bi, b in F.blocks(f):
+        t = b['term']
+        if t['k'] == 'call' and (F.call_path(t) or '').endswith("Iter<'a, T> as std::iter::Iterator>::next"):
+            head, dest, nxt = bi, t['dest']['local'], t['target']
+    if head is None:
+        return None, 'no byte loop (slice::Iter::next) found in raw_name_to_str'
+    sw = f['blocks'][nxt]['term']
+    if sw['k'] != 'switch':
+        return None, 'unexpected shape behind Iter::next'
+    some = next((tb for v, tb in sw['targets'] if v == 1), None)
+    if some is None:
+        return None, 'no Some arm behind Iter::next'
+    events = []
+    names = ['c%d' % i for i in range(8)]
+
+    def push(args, m):
+        events.append(('push', args[1] if len(args) > 1 else None))
+        return ('UNIT',)
+
+    def extend(args, m):
+        events.append(('ext', None))
+        return ('UNIT',)
+
+    class _I(Interp):
+        pass
+    it = _I(facts.fns, {'Vec::<T, A>::push': push, "as std::iter::Extend<&'a T>>::extend": extend, 'Vec::<T, A>::extend_from_slice': extend})
+    it.stop = {head}
+    mem = {'B': [BV.sym('c', 8)]}
+    env = {dest: EnumV('std::option::Option', 1, [CellRef('B', 0)])}
+    results = []
+    # events must be attributed to path conditions: run once per event-free prefix by recording (pc, event) pairs
+    rec = []
+    orig_exec = it._exec
+
+    def _exec(f_, bb, env_, mem_, pc, results_, depth):
+        if pc.is0():
+            return
+        b_ = f_['blocks'][bb]
+        t_ = b_['term']
+        if bb not in it.stop and t_['k'] == 'call':
+            p_ = (t_['callee'].get('resolved') or t_['callee']['path'])
+            if p_.endswith('Vec::<T, A>::push'):
+                a_ = [it.operand(a, env_, mem_) for a in t_['args']]
+                # statements of this block have not run yet: run them first through the normal path, then record
+                n0 = len(events)
+                orig_exec(f_, bb, env_, mem_, pc, results_, depth)
+                for ev in events[n0:n0 + 1]:
+                    rec.append((pc, ev))
+                return
+            if 'Extend' in p_ or p_.endswith('extend_from_slice'):
+                n0 = len(events)
+                orig_exec(f_, bb, env_, mem_, pc, results_, depth)
+                for ev in events[n0:n0 + 1]:
+                    rec.append((pc, ev))
+                return
+        return orig_exec(f_, bb, env_, mem_, pc, results_, depth)
+    it._exec = _exec
+    try:
+        it._exec(f, some, env, mem, BF.const(1), results, 0)
+    except Undecided as e:
+        return None, 'byte loop not evaluable: %s' % e
+    table = {}
+    for c in range(256):
+        hits = []
+        for pc, (kind, val) in rec:
+            acc = bf_table(pc, names)
+            if acc is None or c not in acc:
+                if acc is None:
+                    hits.append(None)
+                continue
+            if kind == 'ext':
+                hits.append('ESC')
+            elif isinstance(val, BV) and all(b is not TOP for b in val.bits):
+                v = 0
+                for i, b in enumerate(val.bits[:8]):
+                    tb = bf_table(b, names)
+                    if tb is None:
+                        v = None
+                        break
+                    if c in tb:
+                        v |= 1 << i
+                hits.append(v)
+            else:
+                hits.append(None)
+        table[c] = hits[0] if len(hits) == 1 else None
+    return table, None
+
+
 def lowercase_rule(ctx, facts, cfg):
-    """C14.d: what a record's name / the question reads back as.  Every name produced by the wire -> text decoder in the reading
-    accessors is folded with the standard ASCII lower-casing before it can be returned."""
+    """C14.d: what a record's name / the question reads back as.  For every name decoded in the reading accessors, the composition
+    (per-byte map of the decoder, evaluated for all 256 byte values by E3) followed by (the standard ASCII fold, if it is applied on
+    every path to the return) must be the ASCII lower-casing of the byte ('.' inside a label is escaped, not folded)."""
     rid = 'C14.d'
     LOW = ('make_ascii_lowercase', 'to_ascii_lowercase')
+    lower = lambda x: x + 32 if 65 <= x <= 90 else x   # noqa
+    table, why = decoder_byte_map(facts)
     n = 0
     for key in facts.inst_keys('rr_iterator::TypedIterable::name') + ['parsed_packet::ParsedPacket::question']:
         f = facts.fns.get(key)
@@ -76,12 +176,33 @@ def lowercase_rule(ctx, facts, cfg):
             if start is not None:
                 reach = F.reachable_blocks(f, start, avoid=lows)
                 escaped = [x for x in reach if f['blocks'][x]['term']['k'] == 'return']
-            ok = bool(lows) and not escaped
-            ctx.instance(rid, '%s: the decoded name from %s is lower-cased (std ASCII fold) on every path to the return' % (key.split('::')[-1] if '@' not in key else 'name@' + key.split('@')[-1], t.get('at')), ok=ok, site=t.get('at'))
-            if not ok:
-                ctx.violation(rid, key, 'not-lowercased@%d' % (decs.index((bi, t)) + 1), '%s can return the text decoded by raw_name_to_str without the standard ASCII lower-casing (make_ascii_lowercase) applied to it: '
-                              'a name does not read back as the lowercased input (a hand-written fold inside the decoder is not evaluated by this rule)' % key.split('::')[-1].split('@')[0],
-                              site=t.get('at'), kind='rule-violated' if not lows else 'rule-violated', config=cfg)
+            folded = bool(lows) and not escaped
+            who = key.split('::')[-1] if '@' not in key else 'name@' + key.split('@')[-1]
+            if table is None:
+                ctx.instance(rid, '%s: decoded name from %s passes the standard ASCII fold on every path (decoder byte map not evaluable: %s)' % (who, t.get('at'), why), ok=folded, site=t.get('at'))
+                if not folded:
+                    ctx.violation(rid, key, 'not-lowercased@%d' % (decs.index((bi, t)) + 1), '%s can return the text decoded by raw_name_to_str without the standard ASCII lower-casing, and the decoder\'s own byte map '
+                                  'could not be evaluated (%s)' % (key.split('::')[-1].split('@')[0], why), site=t.get('at'), kind='undecided', config=cfg)
+                continue
+            wrong = []
+            for c in range(256):
+                d = table.get(c)
+                if d == 'ESC':
+                    continue
+                if d is None:
+                    wrong.append((c, None))
+                    continue
+                out = lower(d) if folded else d
+                if out != lower(c):
+                    wrong.append((c, out))
+            ok = not wrong
+            ctx.instance(rid, '%s: byte map of the decoder%s = ASCII lower-casing for all 256 byte values (name decoded at %s)' % (who, ' followed by the standard fold' if folded else ' (no standard fold on every path)', t.get('at')),
+                         ok=ok, site=t.get('at'))
+            if wrong:
+                ex = ', '.join('0x%02x -> %s' % (c, ('0x%02x' % o) if o is not None else '?') for c, o in wrong[:4])
+                ctx.violation(rid, key, 'not-lowercased@%d' % (decs.index((bi, t)) + 1), '%s does not read a name back as its lowercased form: %d byte value(s) come back wrong (%s; expected e.g. 0x%02x -> 0x%02x)%s'
+                              % (key.split('::')[-1].split('@')[0], len(wrong), ex, wrong[0][0], lower(wrong[0][0]), '' if folded else '; the standard fold (make_ascii_lowercase) is not applied on every path'),
+                              site=t.get('at'), config=cfg)
     if n < 4:
         ctx.violation(rid, '<floor>', 'decoder calls in readers', 'found %d raw_name_to_str calls in name()/question(), expected 4' % n, kind='below-floor')
 
